@@ -32,7 +32,7 @@ LOSSES = ["refused", "reject", "eof", "reset", "pingtimeout"]
 TLS_LOSSES = ["ssl-eof"]
 CUT_LOSSES = ["eof-mid-frame", "eof-mid-message", "reset-mid-message"]
 # further ways in which a connection attempt fails (any of them is "a failed connection attempt": the next one follows)
-FAIL_KINDS = ["unreachable", "conn-timeout", "gaierror", "oserror-eio", "status-500", "garbage-response", "bad-accept", "tls-cert", "tls-error"]
+FAIL_KINDS = ["unreachable", "conn-timeout", "gaierror", "oserror-eio", "status-500", "garbage-response", "bad-accept", "tls-cert", "tls-error", "status-503-binary-body"]
 TLS_FAILS = ["tls-cert", "tls-error"]
 HORIZON = 600.0
 
@@ -60,6 +60,11 @@ def build_plan(seq, final, rng):
             plan.append(dict(outcome="error", exc=lambda: OSError(5, "Input/output error")))
         elif k == "status-500":
             plan.append(dict(outcome="reject", status=500))
+        elif k == "status-503-binary-body":
+            # a rejection that carries a body which is not text (a compressed error page)
+            body = b"\x1f\x8b\x08\x00\x00\x00\x00\x00\x00\x03\xff\xfe\x80\x81 busy \xc3"
+            plan.append(dict(outcome="ok", script=[(0.1, "eof")],
+                             response=lambda req, body=body: b"HTTP/1.1 503 Service Unavailable\r\nContent-Type: text/html\r\nContent-Encoding: gzip\r\nContent-Length: %d\r\n\r\n" % len(body) + body))
         elif k == "garbage-response":
             plan.append(dict(outcome="ok", response=lambda req: b"SSH-2.0-OpenSSH_9.6\r\n\r\n", script=[(0.1, "eof")]))
         elif k == "bad-accept":
@@ -161,6 +166,13 @@ def run(res, tier, seed, shard, nshards):
     for fail_on in ((2,), (2, 3), (1,), (1, 2)):
         for disp in (None, "rel"):
             jobs.append(("header-source", fail_on, disp))
+    # the open callback talks to the server itself (a synchronous login: send, then read the answer from app.sock) and the connection
+    # is lost right there: an abnormal loss like any other
+    # (built-in loop only: with an external dispatcher the library then registers a socket that is already gone - what rel makes of
+    # that is rel's business, and an application reading behind the loop's back is outside the statement's quantifier)
+    for how in ("eof", "reset"):
+        for with_rc in (False, True):
+            jobs.append(("open-callback-reads", how, with_rc, None))
     # a long outage: hundreds of failed attempts in one run, then service comes back
     for disp in (None, "rel"):
         jobs.append(("outage", 450 if quick else 1500, disp))
@@ -181,6 +193,8 @@ def run(res, tier, seed, shard, nshards):
             seq_case(res, W, rng, *job[1:], ji=ji)
         elif job[0] == "outage":
             outage_case(res, W, job[1], job[2])
+        elif job[0] == "open-callback-reads":
+            open_callback_reads_case(res, W, *job[1:])
         elif job[0] == "header-source":
             header_source_case(res, W, job[1], job[2])
         elif job[0] == "inflight-ping":
@@ -446,6 +460,53 @@ def header_source_case(res, W, fail_on, disp):
     if len(run.attempts) != len(plan) or "back" not in msgs:
         bad("reconnect-missing", f"{len(run.attempts)} connection(s) reached the network for {len(plan)} planned, messages {msgs}, header source called {calls['n']} times: "
             f"no attempt after the one whose header source failed", after="header-source-failed")
+        return
+    if closes != [(1000, "done")]:
+        bad("on_close-before-final-ending", f"on_close calls {closes}", count=len(closes))
+
+
+def open_callback_reads_case(res, W, how, with_rc, disp):
+    plan = [dict(outcome="ok", script=[(0.3, how)], pong=0.05),
+            dict(outcome="ok", script=[(0.1, "frames", text("welcome")), (0.4, "frames", text("tick")), (0.9, "close", b"\x03\xe8done")], pong=0.05)]
+    log = []
+
+    def login(run, app, *a):
+        try:
+            app.send("login")
+            log.append(("ack", app.sock.recv()))
+        except Exception as e:  # noqa
+            log.append(("no-ack", type(e).__name__))
+    hooks = {"on_open": login}
+    if with_rc:
+        hooks["on_reconnect"] = login
+    enabled = ["on_open", "on_message", "on_error", "on_close"] + (["on_reconnect"] if with_rc else [])
+    run, out, failure, S = execute(plan, dict(reconnect=1), hooks, disp, enabled)
+    res.case(("open-callback-reads", how, with_rc, disp), nontrivial=True)
+    res.count("open_callback_reads_runs")
+    res.count("runs_with_reconnect")
+    case = {"scenario": "open-callback-reads-from-the-connection", "loss": how, "on_reconnect_given": with_rc, "dispatcher": disp or "builtin"}
+
+    def bad(kind, detail, **kw):
+        res.violation(kind, f"the open callback reads from the connection and the connection is lost there ({how}; {disp or 'builtin'}; on_reconnect {'given' if with_rc else 'not given'}): "
+                      f"{detail}", case, dispatcher=disp or "builtin", final="server-close", **kw)
+    if run is None:
+        res.inconc(f"open-callback-reads case setup: {failure}")
+        return
+    if failure is not None:
+        if isinstance(failure, sched.WatchdogExpired):
+            res.inconc("watchdog")
+        else:
+            bad("no-return", f"{type(failure).__name__}: {str(failure)[:160]}", how=type(failure).__name__)
+        return
+    dexc = getattr(run, "dispatch_exc", None)
+    if dexc is not None:
+        bad("exception-escaped-into-dispatcher", f"{type(dexc).__name__}: {dexc}", exc_type=type(dexc).__name__, loss="open-callback-reads")
+        return
+    msgs = [a[0] for (t, n, a, ci, ac) in run.trace if n == "on_message"]
+    closes = [a for (t, n, a, ci, ac) in run.trace if n == "on_close"]
+    if len(run.attempts) != 2 or ("ack", "welcome") not in log:
+        bad("reconnect-missing", f"{len(run.attempts)} connection(s) reached the network for 2 planned; the callback's own reads: {log}; messages {msgs}; on_close calls {closes}",
+            after="loss-inside-open-callback")
         return
     if closes != [(1000, "done")]:
         bad("on_close-before-final-ending", f"on_close calls {closes}", count=len(closes))
